@@ -92,11 +92,27 @@ Fixpoint pairs_close (a b : list (Q * Q)) : bool :=
   | _, _ => false
   end.
 
-Record c08_case := mkC08 { c08_props : eprops; c08_impl : kdata; c08_finite : bool }.
+(* c08_model_tbs: the thermal bridges of the model itself (id, kind, length, psi) in file order: the
+   reported props must hand them on unchanged (one entry per id, the last one of an id wins) *)
+Record c08_case := mkC08 { c08_props : eprops; c08_impl : kdata; c08_finite : bool; c08_model_tbs : list (uuid * tbp) }.
+Fixpoint last_tb (i : uuid) (l : list (uuid * tbp)) : option tbp :=
+  match l with
+  | [] => None
+  | (j, t) :: r => match last_tb i r with Some x => Some x | None => if N.eqb i j then Some t else None end
+  end.
+Fixpoint distinct_ids (l : list uuid) : nat :=
+  match l with [] => O | x :: r => if existsb (N.eqb x) r then distinct_ids r else S (distinct_ids r) end.
+Definition tbs_passed_on (c : c08_case) : bool :=
+  let ps := ep_tbs (c08_props c) in
+  Nat.eqb (length ps) (distinct_ids (map fst (c08_model_tbs c))) &&
+  forallb (fun e => match last_tb (fst e) (c08_model_tbs c) with
+                    | Some t => tbkind_eqb (tp_kind (snd e)) (tp_kind t) && qeqb (tp_l (snd e)) (tp_l t) && qeqb (tp_psi (snd e)) (tp_psi t)
+                    | None => false end) ps.
 
 Definition agree_C08 (c : c08_case) : N :=
   let m := K_model (c08_props c) in let i := c08_impl c in
   first_fail [
+    (10%N, tbs_passed_on c);
     (9%N, c08_finite c);
     (1%N, if qltb (Qabs (kd_a m - (1 # 100))) (1 # 100000) then true else ktol (kd_K i) (kd_K m));
     (2%N, ktol (kd_a i) (kd_a m) && ktol (kd_au i) (kd_au m));
